@@ -8,7 +8,8 @@ CONSTANTS
   Split = TRUE
   PeekStop = TRUE
   WireGaps = FALSE
+  CutStop = TRUE
 SPECIFICATION Spec
 \* TimingExact presupposes a run loop that is never descheduled for longer than the ESC delay
-INVARIANTS NoPanic NoStateClobber ExactlyOneEOFLast
+INVARIANTS NoPanic NoStateClobber ExactlyOneEOFLast CloseStops
 CHECK_DEADLOCK TRUE
